@@ -154,11 +154,13 @@ func GetHtpasswdMatcher(filename, username, siteRoot string) (PasswordMatcher, e
 	if pm == nil {
 		fh, err := os.Open(filename)
 		if err != nil {
+			htpasswordsMu.Unlock()
 			return nil, fmt.Errorf("open %q: %v", filename, err)
 		}
 		defer fh.Close()
 		pm = make(map[string]PasswordMatcher)
 		if err = parseHtpasswd(pm, fh); err != nil {
+			htpasswordsMu.Unlock()
 			return nil, fmt.Errorf("parsing htpasswd %q: %v", fh.Name(), err)
 		}
 		htpasswords[filename] = pm
